@@ -42,7 +42,9 @@ def gen_plan(prop, seed, index, tier="quick"):
         "chunk": r.choice(["whole", "random"]),
         "service_time": r.choice([0.0, 0.0005, 0.005]),
         "initial_rebalance_delay": r.choice([0.0, 0.0, 0.05, 0.3]),
-        "api_versions": {"11": [0, join_max], "14": [0, 3 if join_max >= 5 else min(join_max, 1)]},
+        "api_versions": {"11": [0, join_max], "14": [0, 3 if join_max >= 5 else min(join_max, 1)],
+                         # OffsetFetch v1 reports coordinator errors per partition, v2+ at top level
+                         "9": [0, r.choice([1, 2, 3, 3]) if prop in ("C13", "C06", "C04") else 3]},
         "hb_completing_rip": r.random() < 0.3,
     }
     session = r.choice([600, 1000, 3000, 6000])
